@@ -97,7 +97,7 @@ type mapState struct {
 
 // MapRace is one detected pair of conflicting, unordered accesses to a Go map.
 type MapRace struct {
-	Site1, Site2 string
+	Site1, Site2   string
 	Write1, Write2 bool
 }
 
